@@ -454,7 +454,8 @@ def _check_ctor(repo, R, h: Handler, hp: HPath, f, line, tparams, ops):
             sc = N(scale)
             want = []
             if "aten.div" in ops:
-                want = [T(f"op({x}._scale, {o})"), T(f"{x}._scale / {o}")]
+                # `rounding_mode=None` is the default of aten.div: true division
+                want = [T(f"op({x}._scale, {o})"), T(f"{x}._scale / {o}"), T(f"op({x}._scale, {o}, rounding_mode=None)")]
             elif "aten.mul" in ops:
                 want = [T(f"{o} * {x}._scale"), T(f"{x}._scale * {o}"), T(f"op({x}._scale, {o})"), T(f"op({o}, {x}._scale)")]
             ok = sc in want
